@@ -530,6 +530,8 @@ def check_proxy_template(fx, rep):
         def visit(n, path):
             nonlocal hits
             if n.get('k') == 'macro' and n.get('name') in ('quote', 'parse_quote') and 'ReplyStream :: new' in (n.get('tokens') or ''):
+                if n.get('spliced'):
+                    return              # a named fragment: judged inside the template it is spliced into (engine P)
                 hits += 1
                 toks = n['tokens']
                 i = toks.index('ReplyStream :: new') + len('ReplyStream :: new')
